@@ -151,4 +151,20 @@ theorem aol_table_import_export {V} (c : AddrCodec) (hc : c.Lawful) (k : Kind) (
   rw [h1, rebuild_sorted m [] (by simpa using hs)]
   simp
 
+/-- **AOL: import ∘ export is the identity on whole states**: the four tables of a state whose tables are sorted and
+whose keys are admitted encodings (what every reachable state is: `Lemmas/AolInv`) are exported and imported back
+unchanged. -/
+theorem aol_import_export (c : AddrCodec) (hc : c.Lawful) (s : Aol.State)
+    (hso : Map.Sorted s.owners) (hst : Map.Sorted s.topics) (hsw : Map.Sorted s.writers) (hsr : Map.Sorted s.records)
+    (hko : KeysAdmitted .owner s.owners) (hkt : KeysAdmitted .topic s.topics)
+    (hkw : KeysAdmitted .writer s.writers) (hkr : KeysAdmitted .record s.records) :
+    ∃ g, aolExport c s = .ok g ∧ aolImport c g = .ok s := by
+  obtain ⟨go, eo, io⟩ := aol_table_import_export c hc .owner s.owners hso hko
+  obtain ⟨gt, et, it⟩ := aol_table_import_export c hc .topic s.topics hst hkt
+  obtain ⟨gw, ew, iw⟩ := aol_table_import_export c hc .writer s.writers hsw hkw
+  obtain ⟨gr, er, ir⟩ := aol_table_import_export c hc .record s.records hsr hkr
+  refine ⟨{ owners := go, topics := gt, writers := gw, records := gr }, ?_, ?_⟩
+  · simp [aolExport, eo, et, ew, er, bind, Outcome.bind, pure]
+  · simp [aolImport, io, it, iw, ir, bind, Outcome.bind, pure]
+
 end Panacea.C08
